@@ -101,13 +101,14 @@ class Callback(T):
 class ListOf(T):
     """list with symbolic spine of elements of scalar type t."""
 
-    def __init__(self, t, flavor='list'):
+    def __init__(self, t, flavor='list', maxlen=None):
         self.t = t
         self.flavor = flavor
+        self.maxlen = maxlen  # collections.deque(maxlen=n): len <= n is a type invariant, append on a full deque drops the left end
 
 
-def DequeOf(t):
-    return ListOf(t, 'deque')
+def DequeOf(t, maxlen=None):
+    return ListOf(t, 'deque', maxlen)
 
 
 class TupleOf(T):
@@ -118,8 +119,8 @@ class TupleOf(T):
 class ConcList(T):
     """list with a concrete spine of n fresh elements of type t."""
 
-    def __init__(self, t, n, flavor='list'):
-        self.t, self.n, self.flavor = t, n, flavor
+    def __init__(self, t, n, flavor='list', maxlen=None):
+        self.t, self.n, self.flavor, self.maxlen = t, n, flavor, maxlen
 
 
 class EmptyDict(T):
